@@ -74,3 +74,7 @@ func verifGraph(p string, g, aux *graph.Graph, a, b graph.Vertex, edgeTo map[int
 		h(p, g, aux, a, b, edgeTo)
 	}
 }
+
+// VerifSetStepHook registers the callback invoked once per iteration of the
+// graph package's main loops. It must be set before any concurrent use.
+func VerifSetStepHook(h func()) { graph.VerifStepHook = h }
